@@ -3,6 +3,7 @@
 //
 //	corr   -out DIR -n N [-orders K] [-all] [-corpus DIR]   write cases.txt / impl.txt / cases.jsonl / fails.jsonl
 //	replay FILE                                             re-run one case (JSON: lines (hex), opts, skip, join)
+//	witnesses DIR                                           (re)write the corpus cases reader-*.json (line orders a valid file never has)
 //
 // A case is a list of 94-character lines.  The implementation is observed twice:
 //
@@ -77,6 +78,8 @@ func main() {
 		corr(os.Args[2:])
 	case "replay":
 		replay(os.Args[2:])
+	case "witnesses":
+		witnesses(os.Args[2:])
 	default:
 		fmt.Fprintln(os.Stderr, "unknown mode")
 		os.Exit(2)
@@ -659,5 +662,47 @@ func replay(args []string) {
 		fmt.Println("PANIC in", o.frame)
 		fmt.Println(o.stack)
 		os.Exit(1)
+	}
+}
+
+// witnesses writes the committed corpus cases: one per structural situation the invariant is about.
+func witnesses(args []string) {
+	if len(args) < 1 {
+		fmt.Fprintln(os.Stderr, "usage: c06reader witnesses DIR")
+		os.Exit(2)
+	}
+	r := rng.New(0xC06EAD)
+	p, err := buildPools(r)
+	if err != nil {
+		fmt.Fprintln(os.Stderr, err)
+		os.Exit(1)
+	}
+	unknownSEC := setCols(p.bh[0], 50, "XXX")
+	iatcorName := setCols(p.bh[0], 4, "IATCOR          ")
+	ari1 := setCols(p.ed[0], 78, "1")
+	cases := map[string][]string{
+		"addenda-outside-batch":        {p.fh[0], p.ad[0]},
+		"addenda-without-entry":        {p.fh[0], p.bh[0], p.ad[0]},
+		"adv-addenda-without-entry":    {p.fh[0], p.ba[0], p.ad[0]},
+		"iat-addenda-nil-entries":      {p.fh[0], p.bi[0], p.ai[0]},
+		"iat-addenda-no-batch":         {p.ai[0]},
+		"control-without-header":       {p.fh[0], p.bc[0], p.fc[0]},
+		"iat-control-without-entries":  {p.fh[0], p.bi[0], p.bc[0]},
+		"entry-outside-batch":          {p.fh[0], p.ed[0]},
+		"consecutive-headers":          {p.fh[0], p.bh[0], p.bh[0], ari1, p.ad[0], p.bc[0]},
+		"adv-then-header":              {p.fh[0], p.ba[0], p.ea[0], p.bh[0], ari1, p.bc[0]},
+		"unknown-sec-header":           {p.fh[0], unknownSEC, ari1, p.ad[0], p.bc[0]},
+		"iat-header-shadows-standard":  {p.fh[0], p.bi[0], p.ei[0], p.bh[0], ari1, p.ad[0], p.bc[0], p.bc[0], p.fc[0]},
+		"iatcor-named-standard-header": {p.fh[0], iatcorName, ari1, p.ad[0], p.bc[0]},
+		"lingering-batch-no-control":   {p.fh[0], p.bh[0], ari1, p.ad[0], p.ad[0]},
+		"control-twice":                {p.fh[0], p.bh[0], ari1, p.bc[0], p.bc[0], p.fc[0], p.fc[0]},
+	}
+	for name, ls := range cases {
+		c := Case{Lines: hexAll(ls), Opts: "nil", Join: "lf", Family: name, Kind: "reader"}
+		b, _ := json.MarshalIndent(c, "", " ")
+		if err := os.WriteFile(filepath.Join(args[0], "reader-"+name+".json"), append(b, '\n'), 0o644); err != nil {
+			fmt.Fprintln(os.Stderr, err)
+			os.Exit(1)
+		}
 	}
 }
